@@ -206,3 +206,33 @@ def graph_parts(g: bytes) -> dict:
         "nodes": nodes,
         "initializers": [tensor(v) for f, _, v in fs if f == GRAPH_INITIALIZER],
     }
+
+
+def graph_inputs(g: bytes) -> list:
+    """graph.input as [{name, elem_type, has_shape, dims}] (ValueInfoProto.type.tensor_type; dims: int or str)."""
+    out = []
+    for f, _, v in fields(g):
+        if f != GRAPH_INPUT:
+            continue
+        vf = fields(v)
+        name = next((x.decode() for k, _, x in vf if k == 1), "")
+        tp = next((x for k, _, x in vf if k == 2), None)
+        info = {"name": name, "elem_type": None, "has_shape": False, "dims": None}
+        if tp is not None:
+            tt = next((x for k, _, x in fields(tp) if k == 1), None)  # TypeProto.tensor_type
+            if tt is not None:
+                tf = fields(tt)
+                info["elem_type"] = next((x for k, _, x in tf if k == 1), 0)
+                shp = next((x for k, _, x in tf if k == 2), None)
+                if shp is not None:
+                    info["has_shape"] = True
+                    dims = []
+                    for k, _, d in fields(shp):
+                        if k == 1:
+                            df = fields(d)
+                            dv = next((x for kk, _, x in df if kk == 1), None)
+                            dp = next((x.decode() for kk, _, x in df if kk == 2), None)
+                            dims.append(dv if dv is not None else dp if dp is not None else None)
+                    info["dims"] = dims
+        out.append(info)
+    return out
